@@ -35,8 +35,13 @@ class VariableBoundInPropagator(VariableBoundPropagator):
 #        in_r_l = in_r_l_t
         
         for i in range(0,len(in_r_l_t)):
+            if in_r_l_t[i][1] < in_r_l_t[i][0]:
+                # An empty range contributes no values
+                continue
             if len(in_r_l) > 0 and in_r_l[-1][1]+1 >= in_r_l_t[i][0]:
-                in_r_l[-1][1] = in_r_l_t[i][1]
+                # Overlapping or adjacent: the merged range ends at the larger upper bound
+                if in_r_l_t[i][1] > in_r_l[-1][1]:
+                    in_r_l[-1][1] = in_r_l_t[i][1]
             else:
                 in_r_l.append(in_r_l_t[i])
         
